@@ -7,8 +7,11 @@
      the model computes it from the store (`shared`) instead of storing it.
    * an Impl has NB = 3 shared buffers (Halfedges::start_/paired_/propVert_)
      and plain, deeply copied vectors (`plain`).
-   * copying an Impl shares the three buffers; MakeUnique clones a buffer iff
-     its count is > 1; a WRITE goes to the buffer WITHOUT looking at the count
+   * SharedVec's copy CONSTRUCTOR makes a deep copy (vec.h: `*this = Vec(vec.view())`:
+     a fresh buffer, then move); only copy ASSIGNMENT shares the buffer and
+     bumps the count.  So `make_shared<Impl>( *old )` / `Impl b = a` own fresh
+     buffers, while `a.halfedge_ = b.halfedge_` (Impl::Transform) and Impl
+     copy assignment share.  MakeUnique clones a buffer iff its count is > 1; a WRITE goes to the buffer WITHOUT looking at the count
      (VecView::operator[] has no check; AssertUnique in resize/push_back/...
      is compiled out unless MANIFOLD_DEBUG).
    * functions of the library are event trees over frame-local Impl objects
@@ -69,9 +72,13 @@ Definition fresh_bufs (st : mstate) : nat -> nat := fun k => nextb st + k.
 Definition new_fresh (st : mstate) : mstate :=
   let st1 := alloc st [] in
   mkSt (heap st1) (nextb st1) (impls st ++ [mkImpl (fresh_bufs st) []]).
-(* make_shared<Impl>( *old ) / Impl b = a : implicit copy constructor *)
+(* make_shared<Impl>( *old ) / Impl b = a : implicit copy constructor.  The
+   SharedVec copy constructor deep-copies: NB new buffers with the same contents. *)
 Definition new_copy (st : mstate) (i : nat) : mstate :=
-  mkSt (heap st) (nextb st) (impls st ++ [getI st i]).
+  let im := getI st i in
+  let n := nextb st in
+  mkSt (fun b => if (n <=? b) && (b <? n + NB) then heap st (bufs im (b - n)) else heap st b)
+       (n + NB) (impls st ++ [mkImpl (fresh_bufs st) (plain im)]).
 (* halfedge_.SetStart(..) / start_[i] = .. / resize / push_back : no count check *)
 Definition write_buf (st : mstate) (i k : nat) (d : data) : mstate :=
   mkSt (upd (heap st) (bufs (getI st i) k) d) (nextb st) (impls st).
@@ -87,7 +94,7 @@ Definition assign_share (st : mstate) (i j : nat) : mstate :=
 (* ------------------------------------------------------------------ events *)
 Inductive ev :=
 | ENewFresh                       (* new local Impl, own buffers *)
-| ENewCopy (src : nat)            (* new local Impl copy-constructed from object src *)
+| ENewCopy (src : nat)            (* new local Impl copy-constructed from object src: deep copy, own buffers *)
 | EMakeUnique (o : nat)           (* o.halfedge_.MakeUnique() *)
 | EWrite (o k : nat)              (* write into buffer k of o *)
 | EWritePlain (o : nat)           (* write into a deep-copied vector of o *)
@@ -282,7 +289,7 @@ Fixpoint check (fuel : nat) (tbl : list fn) (es : list ev) (af : list aobj) : op
       | ENewCopy s =>
         match nth_error af s with
         | None => None
-        | Some a => check f tbl rest (set_nth af s (clear_obj a) ++ [AOwned all_false])
+        | Some _ => check f tbl rest (af ++ [AOwned all_true])
         end
       | EMakeUnique o =>
         match nth_error af o with
@@ -382,19 +389,20 @@ Definition obs_handle (hs : hstate) (h : nat) : option obs :=
   end.
 
 (* CsgLeafNode::GetImpl with a non-identity transform: Impl::Transform builds
-   a new Impl that SHARES the halfedge buffers (result.halfedge_ = halfedge_),
+   a new Impl that SHARES the halfedge buffers (result.halfedge_ = halfedge_, copy ASSIGNMENT),
    clones and flips them when mirrored, transforms the plain vectors; then the
    node's pointer is replaced (never the pointee). *)
 Definition force_impl (st : mstate) (i : nat) (t : Z) : mstate :=
-  let st1 := new_copy st i in
   let n := length (impls st) in
-  let st2 := write_plain st1 n (map (Z.add t) (plain (getI st i))) in
+  let st1 := new_fresh st in                       (* Impl result; *)
+  let st2 := assign_share st1 n i in               (* result.halfedge_ = halfedge_; *)
+  let st3 := write_plain st2 n (map (Z.add t) (plain (getI st i))) in
   if Z.ltb t 0 then
-    let st3 := make_unique st2 n in
-    write_buf (write_buf (write_buf st3 n 0 (rev (heap st3 (bufs (getI st3 n) 0))))
-                         n 1 (rev (heap st3 (bufs (getI st3 n) 1))))
-              n 2 (rev (heap st3 (bufs (getI st3 n) 2)))
-  else st2.
+    let st4 := make_unique st3 n in                (* if (invert) { result.halfedge_.MakeUnique(); FlipTris } *)
+    write_buf (write_buf (write_buf st4 n 0 (rev (heap st4 (bufs (getI st4 n) 0))))
+                         n 1 (rev (heap st4 (bufs (getI st4 n) 1))))
+              n 2 (rev (heap st4 (bufs (getI st4 n) 2)))
+  else st3.
 
 Inductive hop :=
 | HRun (f : nat) (args : list nat) (ch : list data)  (* public operation: entry function f on the Impls of handles args; every Impl it creates is published as a new handle *)
